@@ -6,6 +6,8 @@ fail=0
 for d in seeded/*/; do
   id=$(basename $d)
   prop=$(python3 -c "import json;m=json.load(open('$d/meta.json'));print(m.get('caught_by',[m['breaks_property']])[0])" 2>/dev/null) || continue
+  # a seed recorded as not (yet) caught is listed, not required
+  if python3 -c "import json,sys;sys.exit(0 if json.load(open('$d/meta.json')).get('status')=='missed' else 1)"; then echo "$id: recorded as missed (no check reports it yet)"; continue; fi
   cd /repo && git diff --quiet || { echo "/repo dirty"; exit 2; }
   git apply /verif/$d/patch.diff 2>/dev/null || git apply -3 /verif/$d/patch.diff 2>/dev/null || { echo "$id: patch no longer applies"; git reset -q --hard HEAD; fail=1; cd /verif; continue; }
   cp /verif/evidence/$prop.json /tmp/ev_$prop.json 2>/dev/null
